@@ -42,7 +42,31 @@ pub fn dump_main(args: &[String]) {
     // depend on which thread scored what before
     q.push("** [ref]: http://r**<div>".to_string());
     q.push("shared long prefix of several titles".to_string());
-    let o = observe(&db, &texts, &q);
+    q.push("2024 Q1 goals OKRs".to_string());
+    q.push("goals".to_string());
+    let mut o = observe(&db, &texts, &q);
+    // the same library behind the LSP server, with the configuration `iwe init` writes (several configured block actions
+    // in a hash map): the completion list (many notes share a title) and the code-action list, in the order answered
+    {
+        use crate::lsp::{self, Outcome, Server};
+        use liwe::model::config::{BlockAction, Context};
+        let mut cfg = lsp::test_configuration("");
+        for (id, title) in [("rewrite", "Rewrite"), ("expand", "Expand"), ("keywords", "Keywords"), ("emoji", "Emojify"), ("today", "Today"), ("summarize", "Summarize")] {
+            cfg.actions.insert(id.to_string(), BlockAction { title: title.to_string(), model: "default".to_string(), prompt_template: "{{context}}".to_string(), context: Context::Document });
+        }
+        let st: HashMap<String, String> = keys.iter().map(|k| ((*k).clone(), texts[*k].clone())).collect();
+        let mut s = Server::start(Some(st), "/basepath".to_string(), cfg);
+        let uri = s.uri("tl3");
+        if let Outcome::Result(v) = s.request("textDocument/completion", json!({"textDocument": {"uri": uri}, "position": {"line": 2, "character": 0}})) {
+            let items: Vec<String> = v["items"].as_array().cloned().unwrap_or_default().iter().map(|i| format!("{} => {}", i["label"].as_str().unwrap_or(""), i["insertText"].as_str().unwrap_or(""))).collect();
+            o.insert("lsp-completion".to_string(), items.join("\n"));
+        }
+        if let Outcome::Result(v) = s.request("textDocument/codeAction", json!({"textDocument": {"uri": uri}, "range": {"start": {"line": 4, "character": 0}, "end": {"line": 4, "character": 0}}, "context": {"diagnostics": []}})) {
+            let items: Vec<String> = v.as_array().cloned().unwrap_or_default().iter().map(|i| format!("{} [{}]", i["title"].as_str().unwrap_or(""), i["kind"].as_str().unwrap_or(""))).collect();
+            o.insert("lsp-code-actions".to_string(), items.join("\n"));
+        }
+        let _ = s.shutdown();
+    }
     println!("{}", serde_json::to_string(&o).unwrap());
 }
 
@@ -51,7 +75,7 @@ impl Check for C16 {
         "C16"
     }
     fn rule(&self) -> String {
-        "case = one generated library (50-400 notes, dense cross references, duplicate titles, equal ranks) dumped by N separate processes (fresh hash seeds) with RAYON_NUM_THREADS in {1,2,3,4,8,16}, the state map filled in permuted orders, built by Graph::import and by one-by-one inserts in permuted orders; the canonical dump (formatted files, titles, backlink sets with lines, rendered paths, ordered search results, node-at-line) of all processes must be byte-identical; distinct = (build mode, thread count, permutation) configurations that produced a dump".into()
+        "case = one generated library (50-400 notes, dense cross references, duplicate titles, equal ranks) dumped by N separate processes (fresh hash seeds) with RAYON_NUM_THREADS in {1,2,3,4,8,16}, the state map filled in permuted orders, built by Graph::import and by one-by-one inserts in permuted orders; the canonical dump (formatted files, titles, backlink sets with lines, rendered paths, ordered search results, node-at-line; plus, from an LSP server on the same library with six configured block actions, the completion list and the code-action list in the order answered) of all processes must be byte-identical; distinct = (build mode, thread count, permutation) configurations that produced a dump".into()
     }
     fn assumptions(&self) -> Vec<String> {
         vec!["each dump comes from its own OS process, so HashMap RandomState differs between dumps".into()]
@@ -101,6 +125,11 @@ impl Check for C16 {
             lib.insert(format!("hq{}", i), format!("# \\*\\* \\[ref\\]: http://r\\*\\*&lt;div&gt;{}\n", tail));
             lib.insert(format!("hp{}", i), format!("# shared long prefix of several titles{}\n", tail));
         }
+        // two paths that read the same word for word and end in the same note (the split between title and section
+        // differs): every sort key of the search ties
+        lib.insert("plan-2024".into(), "# 2024\n\n## Q1 goals\n\n[OKRs](okrs)\n".into());
+        lib.insert("plan-2024-q1".into(), "# 2024 Q1\n\n## goals\n\n[OKRs](okrs)\n".into());
+        lib.insert("okrs".into(), "# OKRs\n\ntext\n".into());
         let dir = mon::scratch_dir("c16");
         let file = dir.join("lib.json");
         std::fs::write(&file, serde_json::to_string(&lib).unwrap()).unwrap();
